@@ -693,6 +693,22 @@ func (e *Env) evalCall(n *ECall) SVal {
 		need(1)
 		c.declareFun("be64.dec", []Sort{SStr}, SInt)
 		return SVal{T: app(SInt, "be64.dec", arg(0).T)}
+	case "be32enc", "be16enc":
+		// big-endian fixed-width encodings (A-CODEC: decode(encode(x)) = x on the type's range, fixed length)
+		need(1)
+		w := n.Fn[2:4]
+		c.declareBE(w)
+		return SVal{T: app(SStr, "be"+w+".enc", arg(0).T), Type: types.Typ[types.String]}
+	case "be32dec", "be16dec":
+		need(1)
+		w := n.Fn[2:4]
+		c.declareBE(w)
+		return SVal{T: app(SInt, "be"+w+".dec", arg(0).T)}
+	case "strat":
+		// strat(s, j): byte j of string s
+		need(2)
+		c.declareFun("gstr.at", []Sort{SStr, SInt}, SInt)
+		return SVal{T: app(SInt, "gstr.at", arg(0).T, arg(1).T)}
 	case "deref":
 		// deref(p): the value a pointer to a non-struct type (e.g. *types.Address) points to
 		need(1)
